@@ -473,3 +473,29 @@ Proof.
     + eapply core3_close; eauto.
   - apply (T3_unsusp ms t Es) in I. destruct I as [I Q]. eapply core3_unsusp; eauto.
 Qed.
+
+(* ---- the visit step inside the nested walk ---- *)
+Lemma visit_wstate ph pre c0 rest (V V' : nat -> thread) g0 n :
+  NoDup (pre ++ c0 :: rest) ->
+  (forall j, (j < n)%nat -> wstate ph pre (Some c0) rest (pre ++ c0 :: rest) j (V j)) ->
+  (forall j, j <> c0 -> V' j = V j) -> t_prev (V' c0) = Some g0 ->
+  (match ph with PInv => inI (V' c0) \/ t_pc (V' c0) = RfLoad | PRef => pcR (t_pc (V' c0)) = true \/ t_pc (V' c0) = CClose end) ->
+  ((match ph with PInv => t_pc (V' c0) = RfLoad | PRef => t_pc (V' c0) = CClose end) ->
+     forall j, (j < n)%nat -> wstate ph (pre ++ [c0]) None rest (pre ++ c0 :: rest) j (V' j)) /\
+  ((match ph with PInv => t_pc (V' c0) <> RfLoad | PRef => t_pc (V' c0) <> CClose end) ->
+     forall j, (j < n)%nat -> wstate ph pre (Some c0) rest (pre ++ c0 :: rest) j (V' j)).
+Proof.
+  intros ND WS OT PV CL. destruct (nodup_mid _ _ _ ND) as [NP NR].
+  assert (IS : In c0 (pre ++ c0 :: rest)) by (apply in_or_app; right; left; reflexivity).
+  split; intros E j Hj; destruct (Nat.eq_dec j c0) as [->|Nj].
+  - destruct ph; cbn [wstate]; (split; [|split; [discriminate|split; [intros X; exfalso; auto|intros X; exfalso; auto]]]).
+    + intros _. exact E.
+    + intros _. unfold fin. rewrite PV. exact E.
+  - rewrite (OT j Nj). specialize (WS j Hj). destruct ph; cbn [wstate] in *; destruct WS as (W1 & W2 & W3 & W4);
+      (split; [intros X; apply in_app_or in X as [X|[X|[]]]; [auto|congruence]|]); (split; [discriminate|split; assumption]).
+  - destruct ph; cbn [wstate]; (split; [intros X; exfalso; auto|]); (split; [|split; [intros X; exfalso; auto|intros X; exfalso; auto]]); intros _.
+    + destruct CL as [X|X]; [exact X|congruence].
+    + destruct CL as [X|X]; [exact X|congruence].
+  - rewrite (OT j Nj). specialize (WS j Hj). destruct ph; cbn [wstate] in *; destruct WS as (W1 & W2 & W3 & W4);
+      (split; [exact W1|]); (split; [intros X; injection X as X; congruence|split; assumption]).
+Qed.
